@@ -422,6 +422,18 @@ func (s *Set) c05() {
 	if wl == nil {
 		return
 	}
+	// one specific history gets its own fingerprint: the Rollout was deleted / disabled after the webhook had held the
+	// workload back but before the BatchRelease existed, so nobody resumes the workload
+	if (exit == "delete" || exit == "disable") && !s.brCreatedSinceRelease {
+		held := simapi.Bool(wl, "spec.paused") || fmt.Sprint(simapi.Path(wl, "spec.updateStrategy.partition")) == "100%" || simapi.Bool(wl, "spec.updateStrategy.paused")
+		if p, ok := simapi.Int(wl, "spec.updateStrategy.rollingUpdate.partition"); ok && p > 0 {
+			held = true
+		}
+		if held {
+			s.violate("C05", "c05:workload-left-held:rollout-"+exit+"d-before-batchrelease-created", fmt.Sprintf("the Rollout was %sd after the webhook held the workload back but before a BatchRelease was created: the workload stays held (paused=%v partition=%v) and never reaches the user's revision", exit, simapi.Bool(wl, "spec.paused"), simapi.Path(wl, "spec.updateStrategy.partition")), nil, s.Projection(v))
+			return
+		}
+	}
 	// user-owned fields back to the user's configuration
 	bad := func(field string, got, want interface{}) {
 		s.violate("C05", fmt.Sprintf("c05:not-restored:%s:%s/%s", field, s.S.Kind, s.S.Style), fmt.Sprintf("after the rollout ended (%s) %s is %v, the user configured %v", exit, field, jsonStr(got), jsonStr(want)), nil, s.Projection(v))
